@@ -448,8 +448,8 @@ func (p *Prog) verifyFunction(ct *Contract, opts runOpts) *FuncReport {
 			// first try without the quantified assumptions (fewer assumptions: unsat stays valid)
 			lq := e.buildQueryX(pre, o, true, true)
 			lt := opts.timeoutS
-			if lt > 5 {
-				lt = 5
+			if lt > 10 {
+				lt = 10
 			}
 			lr := solve(wd, o.Name+"_light", lq, lt, opts.needTwo)
 			if lr.Verdict == "unsat" {
